@@ -37,6 +37,9 @@ EXPLANATION = (
     'its archive from _get_file_internal. R3: every network primitive reachable from Resolver.resolve() is reachable only after check_can_download() completed. '
     'R5: a keyword argument that Interpreter.func_dependency reads again after lookup() returned (include_type, not_found_message) or that is rewritten in the dict the '
     'identifier is computed from (required) is on no path of get_dep_identifier put into the identifier. '
+    'R6: a placeholder that Dependency.get_version() returns for a missing version never satisfies a constraint in DependencyFallbacksHolder._check_version, and '
+    'ExternalDependency._check_version compares versions only when self.version is non-empty. '
+    'R7: every read of a [provide] table (provided_deps, wrapdb_provided_deps) in Resolver uses a lower-cased key or a key of the table itself. '
     'R4: apply_patch/apply_diff_files run only in _resolve inside a try whose handlers remove self.dirname and re-raise; every return of _resolve is '
     'gated by has_buildfile(). NOT decided: outcomes of run-time lookups (system state, subproject configuration), the cross product of the policy table as behaviour, '
     'that sha256/urlopen behave as documented, KeyboardInterrupt during patching, that an override is found by a dependency() call that names another method/modules/components (these keywords are part of the identifier by upstream design; confirmed by probe, not armed), a guard of _get_cached_dep spelled with another attribute than the reference knows (ends Undecided), override_dependency() in interpreter/mesonmain.py, '
